@@ -51,7 +51,9 @@ class Prop(BaseProp):
         table = [[k, [k + '-alias'], False] for k in KEYS[:3]]   # 'a-alias' resolves to 'a' on this instance only
         l1 = P.licensing(table)
         l2 = impl.le.Licensing()
-        ea, eb, ea2, eb2 = [impl.build_tree(t) for t in (a, b, a2, b2)]
+        import random as _random
+        wr = _random.Random(len(repr(a))) if len(repr(a)) % 3 == 0 else None
+        ea, eb, ea2, eb2 = [impl.build_tree(t, rng=wr) for t in (a, b, a2, b2)]
         sa, sb = str(ea), str(eb)
         tags = ['rel=' + case.get('rel', '?')]
         try:
